@@ -154,7 +154,7 @@ static std::string opUnitInt(Args& A, Session* S){
 static std::string opLinReg(Args& A, Session* S){
 	long long lamNum = A.next(); std::size_t lamShift = A.nat(); std::size_t k = A.nat();
 	if(A.bad || lamNum < 0 || lamShift > 40 || k == 0 || k > 64) return "bad-op";
-	Table T; if(!T.read(A, k) || !A.done()) return "bad-op";
+	Table T; if(!T.read(A, k, true) || !A.done()) return "bad-op";
 	double lambda = std::ldexp((double)lamNum, -(int)lamShift);
 	std::size_t d = T.d, n = T.n;
 	Out o;
